@@ -97,6 +97,10 @@ Inductive expr :=
  | Tuple (l : list expr)                 (* (a, b) *)
  | Lambda (x : string) (b : expr)        (* x -> b *)
  | BitSet (terms : list expr)            (* clickhouse_transpiler.bitSet *)
+ | BitSet8 (terms : list expr)           (* the same sum printed WITHOUT the toUInt64 conversion: bitShiftLeft(t,i)+...  The planners
+                                            do not build it (bitSet.String always converts); the check translates a bitSet whose
+                                            text lacks the conversion to this, so that the evaluator gives it ClickHouse's
+                                            meaning: the shift keeps the UInt8 type of a comparison *)
  | BitAnd (l r : expr)                   (* clickhouse_transpiler.bitAnd *)
  | GroupBitOr (e : expr) (alias : string)(* clickhouse_transpiler.groupBitOr *)
  | MatchRe (f : expr) (re : string)      (* clickhouse_transpiler.matchRe *)
@@ -123,6 +127,12 @@ Fixpoint bitset_strs (l : list string) (i : N) : list string :=
   match l with
   | [] => []
   | c :: r => ("bitShiftLeft(toUInt64(" ++ c ++ ")," ++ string_of_N i ++ ")") :: bitset_strs r (i + 1)%N
+  end.
+
+Fixpoint bitset8_strs (l : list string) (i : N) : list string :=
+  match l with
+  | [] => []
+  | c :: r => ("bitShiftLeft(" ++ c ++ "," ++ string_of_N i ++ ")") :: bitset8_strs r (i + 1)%N
   end.
 
 Definition ropt (f : expr -> string) (kw : string) (o : option expr) : string :=
@@ -156,6 +166,7 @@ Fixpoint rexpr (e : expr) : string :=
   | Tuple l => "(" ++ join ", " (map rexpr l) ++ ")"
   | Lambda x b => x ++ " -> " ++ rexpr b
   | BitSet terms => join "+" (bitset_strs (map rexpr terms) 0%N)
+  | BitSet8 terms => join "+" (bitset8_strs (map rexpr terms) 0%N)
   | BitAnd l r => "bitAnd(" ++ rexpr l ++ "," ++ rexpr r ++ ")"
   | GroupBitOr e a => let s := "groupBitOr(" ++ rexpr e ++ ")" in if String.eqb a "" then s else s ++ " as " ++ a
   | MatchRe f re => "match(" ++ rexpr f ++ "," ++ quote re ++ ")"
@@ -248,6 +259,7 @@ Fixpoint wfg_expr (d : bool) (e : expr) : bool :=
   | Tuple l => negb (match l with [] => true | _ => false end) && forallb (wfg_expr d) l
   | Lambda x b => negb (String.eqb x "") && wfg_expr d b
   | BitSet terms => negb (match terms with [] => true | _ => false end) && forallb (wfg_expr d) terms
+  | BitSet8 terms => negb (match terms with [] => true | _ => false end) && forallb (wfg_expr d) terms
   | BitAnd l r => wfg_expr d l && wfg_expr d r
   | GroupBitOr e _ => wfg_expr d e
   | MatchRe f _ => wfg_expr d f
